@@ -692,6 +692,24 @@ def loader_shapes() -> Dict[str, str]:
     return out
 
 
+def session_shapes() -> Dict[str, str]:
+    """`UserSessionManager.pre_timestep` (the time-out sweep) and the head of `_login`, as canonical text, plus whether the
+    sweep and `_timeout_session` mention the node's power or `_can_perform_action` at all"""
+    usm = class_def(parse(BASE), "UserSessionManager")
+    pre = find_method(usm, "pre_timestep")
+    tmo = find_method(usm, "_timeout_session")
+    login = find_method(usm, "_login")
+    body = [x for x in login.body if not _is_log(x)]
+    guarded = (bool(body) and isinstance(body[0], ast.If) and ast.unparse(body[0].test) == "not self._can_perform_action()"
+               and isinstance(body[0].body[-1], ast.Return) and ast.unparse(body[0].body[-1].value) == "None")
+    src = ast.unparse(pre) + ast.unparse(tmo)
+    blind = not any(w in src for w in ("operating_state", "_can_perform_action", "NodeOperatingState"))
+    limit = find_method(usm, "remote_session_limit_reached")
+    return {"pre_timestep": flat(pre.body), "login_guarded": "true" if guarded else "false",
+            "sweep_power_blind": "true" if blind else "false",
+            "remote_limit": flat(limit.body)}
+
+
 def power_call_sites() -> List[Tuple[str, str, int]]:
     """(file, enclosing function, number of calls) of every `<x>.power_on()` / `.power_off()` / node `.reset()` under src/primaite,
     the definitions in base.py excluded"""
@@ -854,6 +872,9 @@ def emit() -> str:
     lines.append("def loaderShapes : List (String × String) := [")
     lines.append(",\n".join(f"  ({lean_str(k)}, {lean_str(v)})" for k, v in loader_shapes().items()))
     lines.append("]")
+    lines.append("/-- `UserSessionManager`: the time-out sweep of pre_timestep, whether it consults power, the guard of `_login` -/")
+    lines.append("def sessionShapes : List (String × String) := [" +
+                 ", ".join(f"({lean_str(k)}, {lean_str(v)})" for k, v in session_shapes().items()) + "]")
     lines.append("/-- every call of power_on / power_off under src/primaite: (file, function:method, count) -/")
     lines.append("def powerCallSites : List (String × String × Nat) := [" +
                  ", ".join(f"({lean_str(f)}, {lean_str(fn)}, {k})" for f, fn, k in power_call_sites()) + "]")
